@@ -495,8 +495,8 @@ def concurrent(res, exes):
         lines = run_conc(exes[("conc", size)], scn, ["random", str(res.seed), "6", "-1"])
         if not judge(res, size, scn, lines, stats, "corpus-random " + fn):
             return stats
-    nscen = 36 if quick else 240
-    per = 10 if quick else 40
+    nscen = 60 if quick else 240
+    per = 12 if quick else 40
     for i in range(nscen):
         size = SIZES[i % len(SIZES)]
         scn, nparts = gen_scenario(rng, size, i // len(SIZES))
@@ -504,7 +504,7 @@ def concurrent(res, exes):
             sample = scn.split("\n")
         stats["scenarios"] += 1
         shapes["participants=%d" % nparts] += 1
-        shapes["fill=" + scn.split("\n")[0].split(" ", 1)[1]] += 0
+        shapes["prefill(push,put)=" + scn.split("\n")[0].split(" ", 1)[1]] += 1
         bound = [-1, 2, 3][i % 3]
         lines = run_conc(exes[("conc", size)], scn, ["random", str(res.seed * 1000 + i), str(per), str(bound)])
         h = common.hashcase([size, scn])
@@ -514,8 +514,8 @@ def concurrent(res, exes):
         if not judge(res, size, scn, lines, stats, "random bound=%d" % bound):
             return stats
     # DFS with a preemption bound
-    ndfs = 3 if quick else 14
-    budget = 1500 if quick else 12000
+    ndfs = 4 if quick else 14
+    budget = 3000 if quick else 12000
     for i in range(ndfs):
         size = [4, 6][i % 2]
         scn, nparts = gen_scenario(rng, size, i)
